@@ -572,6 +572,7 @@ impl TransportVisitor for VB {
                 if let Some(l) = co.borrow_mut().livelock.take() {
                     if UNATTRIBUTABLE.with(|u| u.get()) {
                         tag("wait-for-a-completion-the-device-misattributed");
+                        viol(&format!("wait-never-ends-after-foreign-used-id:{}:{}", kind.name(), $name), format!("{}: {}", $name, l));
                     } else {
                         viol("livelock", format!("{}: {}", $name, l));
                     }
@@ -670,6 +671,11 @@ impl TransportVisitor for VB {
                     }
                 }
                 call!("can_send", n.can_send());
+                // The blocking receive: the device fills the buffer (honestly or not) while the
+                // driver waits.
+                let mut buf2 = vec![0u8; 2048];
+                lend(&buf2);
+                call!("receive_wait", n.receive_wait(&mut buf2));
             }
             AnyDriver::NetBuf(n) => {
                 let mut frame = vec![0u8; 12];
